@@ -163,16 +163,42 @@ def r2_helpers(ctx):
     ctx.ob("R2", k, "polars failure cases = rows where the coercible mask is False", ok, "filter(mask.not_())" if ok else "filter does not negate the mask")
 
 
-SITES = [("pandera/backends/pandas/array.py::ArraySchemaBackend.coerce_dtype", None),
-         ("pandera/backends/pandas/container.py::DataFrameSchemaBackend._coerce_dtype_helper.<_coerce_df_dtype>", None),
-         ("pandera/backends/polars/container.py::DataFrameSchemaBackend._coerce_dtype_helper", None),
-         ("pandera/backends/polars/components.py::ColumnBackend.coerce_dtype", None)]
+SITE_DIRS = ("pandera/backends/pandas/", "pandera/backends/polars/")
+SITE_FLOOR = 4  # confirmed by reading: pandas array coerce_dtype, pandas container _coerce_df_dtype, polars container helper, polars column
+
+
+def _coercion_sites(ix):
+    """Schema-level users of try_coerce, found by role: a backend function that mentions `try_coerce` (attribute or the
+    name handed to getattr) and either already converts ParserError or passes one of its own parameters (the data under
+    validation) to it.  (add_missing_columns coerces a freshly built default-value Series, not the validated data.)"""
+    out = []
+    for m in ix.modules.values():
+        if not m.path.startswith(SITE_DIRS):
+            continue
+        for f in m.all_functions:
+            mention = [n for n in walk_no_nested(f.node)
+                       if (isinstance(n, ast.Attribute) and n.attr == "try_coerce") or (isinstance(n, ast.Constant) and n.value == "try_coerce")]
+            if not mention:
+                continue
+            handled = any("ParserError" in handler_names(h) for t in walk_no_nested(f.node) if isinstance(t, ast.Try) for h in t.handlers)
+            params = set(f.positional)
+            direct = any(isinstance(c.func, ast.Attribute) and c.func.attr == "try_coerce" and c.args and isinstance(c.args[0], ast.Name)
+                         and c.args[0].id in params for c in calls_in(f.node))
+            if handled or direct:
+                out.append(f)
+    return out
 
 
 def r3_schema_level(ctx):
     ix = ctx.ix
-    for q, _ in SITES:
-        f = ix.func(q)
+    sites = _coercion_sites(ix)
+    ctx.stats["schema_level_coercion_sites"] = len(sites)
+    if len(sites) < SITE_FLOOR:
+        g = ix.module("pandera/backends/pandas/container.py").all_functions[0]
+        ctx.ob("R3", g, "schema-level coercion sites", False,
+               f"only {len(sites)} backend functions convert the ParserError of try_coerce ({', '.join(x.short for x in sites)}); "
+               f"{SITE_FLOOR} were confirmed: a site lost its `except ParserError`")
+    for f in sites:
         ctx.touched(f)
         hs = [h for t in walk_no_nested(f.node) if isinstance(t, ast.Try) for h in t.handlers if "ParserError" in handler_names(h)]
         if not hs:
